@@ -422,7 +422,8 @@ def polar_coordinates(
         return dist, np.arctan2(diff[..., 1], diff[..., 0])
 
     elif grid.dim == 3:
-        theta = np.arccos(diff[..., 2] / dist)
+        # use arctan2 to obtain a finite angle even for points located at the origin
+        theta = np.arctan2(np.hypot(diff[..., 0], diff[..., 1]), diff[..., 2])
         phi = np.arctan2(diff[..., 1], diff[..., 0])
         return dist, theta, phi
 
